@@ -96,6 +96,23 @@ theorem chain_overlap_iff (ksr : Request) (last : Response) (pol : RequestPolicy
       · simp; omega
       · simp; omega
 
+/-- **Exactly when `public_key_to_dnssec_key` can fail on the token's key text** (called with flags
+    257, the signature's identifier, algorithm and TTL): it succeeds iff `Derivable pk alg` — the
+    algorithm number fits one octet, the text is base64 the model decodes (anything else the model
+    declines to judge: `unsupported`), and for ECDSA P-256 / P-384 the decoded point has the curve's
+    size, bare or behind a `0x04` octet (otherwise: pydantic `ValidationError`; empty: `IndexError`).
+    Identifier, TTL and flags never make it fail. -/
+theorem token_key_derivable_iff (pk id : String) (alg : Nat) (ttl : Int) :
+    (∃ k, publicKeyToDnssecKey pk id alg ttl 257 = .ok k) ↔
+      alg < 256 ∧ ∃ b, Base64.decode pk = some b ∧ ((alg = 13 ∨ alg = 14) → EcPointOk alg b) :=
+  publicKeyToDnssecKey_ok_iff pk id alg ttl
+
+/-- the derived key carries the token's key text unchanged, so "the derived key's text equals the
+    published key's text" is "the token's text equals the published text" -/
+theorem derived_key_text (pk id : String) (alg : Nat) (ttl flags : Int) (k : Key)
+    (h : publicKeyToDnssecKey pk id alg ttl flags = .ok k) : k.publicKey = pk :=
+  (publicKeyToDnssecKey_fields h).1
+
 /-- the token rule as the loop over `keyPresentStep` plus the "at least one signature" test -/
 theorem key_present_unfold (last : Response) (pol : RequestPolicy) (lookup : TokenLookup) (prev : Bundle)
     (hl : last.bundles.getLast? = some prev) (hflag : pol.checkChainKeysInHsm = true) :
